@@ -302,6 +302,17 @@ func countSteps(typ string) []step {
 			setLimit(w, &proxyv1alpha1.RateLimitAcquireResult{FlowControl: "s", Error: e}, false)
 		}, failing: e != "RequestIDTooOld"})
 	}
+	if typ == "mif" {
+		// likewise the in-flight peak the meter has seen (it sizes the max-in-flight fallback): 7 is what it shows when
+		// the local limiter's 2 and a quota of 5 were in flight together (the recorded finding of DESIGN 0.5a), or after
+		// the global limit was lowered under load
+		out = append(out, step{name: "the meter has seen 7 requests in flight", do: func(w *world) {
+			round(w)
+			if rw := remoteWrapper(w); rw != nil {
+				remote.VerifSetMeasuredPeak(rw, 7)
+			}
+		}})
+	}
 	if typ == "tb" {
 		// what the schema's meter has measured is an input of the error path (the fallback bucket is sized by it): the
 		// meter runs on the real clock, so the harness decides the measurement. 6/s is what a stream that is held to
